@@ -35,6 +35,7 @@ RULE = (
     "5-60 steps, 1-4 envs, n 1-5, capacity 2-12, per-step terminal probability .08-.8, 1-step buffer uniform or "
     "prioritised; non-trivial = at least one stored n-step row whose raw n-window contained a terminal step (so the cut "
     "decision mattered) AND the k-th rows of both buffers were compared; distinct = distinct case descriptions"
+    " Added: every other paired draw is followed by a second draw before the n-step rows of the first batch are gathered; the real train_off_policy workload runs populations of 1-3 agents"
 )
 ASSUMPTIONS = [
     "transitions are built and paired literally as train_off_policy.py:307-325 does (Transition tensorclass, "
